@@ -437,6 +437,9 @@ class Model:
                 else:
                     name = ref
                 target = self.resolve_in_ns(ti.ns, name)
+                if how in ('class', 'opt_class') and target is not None and self.tasks[target].key != ref:
+                    # a reference by class means THAT class: a task that merely shares its (short) name does not satisfy it
+                    target = None
                 label = ref
                 if target is None:
                     if how in ('opt_class', 'opt_name'):
